@@ -100,6 +100,7 @@ _PHASE_RULES = [
     ("print_result", "solver.py", "result"),
     ("transform_sol", "cons_problem.py", "transform"),
     ("_verif_callback", "record.py", "callback"),
+    ("__call__", "callbacks.py", "callback"),
     ("_verif_penalty_initial", "record.py", "penalty.initial"),
     ("_verif_penalty_update", "record.py", "penalty"),
     ("_verif_linesearch", "record.py", "linesearch"),
@@ -497,7 +498,9 @@ class TracedSolver(Solver):
             raise
         nxt = res.iterate
         accepted = bool(res.accepted)
-        kind = "accept" if accepted else ("fail" if self._step_raised != "none" else "reject")
+        # fail_result() hands back the very same iterate object; a rejection carries a new one
+        failed = (not accepted) and (self._step_raised != "none" or (nxt is iterate and res.active_set is None))
+        kind = "accept" if accepted else ("fail" if failed else "reject")
         lb = self.problem.var_lb
         ub = self.problem.var_ub
         inbox = bool((nxt.x >= lb).all() and (nxt.x <= ub).all())
